@@ -33,10 +33,88 @@ def _free_names(e):
     return {n.id for n in ast.walk(e) if isinstance(n, ast.Name)} - {"np", "None", "int", "max", "min", "abs"}
 
 
+class _NoEval(Exception):
+    pass
+
+
+def _ev(e, env):
+    """Evaluate a window test over concrete window sizes (finite case analysis; only the constructs such a test is made of)."""
+    if isinstance(e, ast.Constant):
+        return e.value
+    if isinstance(e, ast.Name):
+        if e.id in env:
+            return env[e.id]
+        raise _NoEval(e.id)
+    if isinstance(e, (ast.Tuple, ast.List)):
+        return [_ev(x, env) for x in e.elts]
+    if isinstance(e, ast.UnaryOp) and isinstance(e.op, ast.Not):
+        return not _ev(e.operand, env)
+    if isinstance(e, ast.BoolOp):
+        vals = [_ev(v, env) for v in e.values]
+        return all(vals) if isinstance(e.op, ast.And) else any(vals)
+    if isinstance(e, ast.BinOp):
+        a, b = _ev(e.left, env), _ev(e.right, env)
+        ops = {ast.Add: lambda: a + b, ast.Sub: lambda: a - b, ast.Mult: lambda: a * b, ast.FloorDiv: lambda: a // b, ast.Mod: lambda: a % b}
+        if type(e.op) in ops:
+            return ops[type(e.op)]()
+        raise _NoEval("op")
+    if isinstance(e, ast.Compare):
+        left = _ev(e.left, env)
+        for op, c in zip(e.ops, e.comparators):
+            right = _ev(c, env)
+            r = {ast.Lt: left < right, ast.LtE: left <= right, ast.Gt: left > right, ast.GtE: left >= right, ast.Eq: left == right,
+                 ast.NotEq: left != right}.get(type(op))
+            if r is None:
+                raise _NoEval("cmp")
+            if not r:
+                return False
+            left = right
+        return True
+    if isinstance(e, ast.Call) and isinstance(e.func, ast.Name) and e.func.id in ("all", "any", "max", "min") and e.args:
+        a = e.args[0]
+        if isinstance(a, (ast.GeneratorExp, ast.ListComp)) and len(a.generators) == 1 and isinstance(a.generators[0].target, ast.Name) and not a.generators[0].ifs:
+            items = _ev(a.generators[0].iter, env)
+            vals = [_ev(a.elt, dict(env, **{a.generators[0].target.id: it})) for it in items]
+        elif len(e.args) > 1:
+            vals = [_ev(x, env) for x in e.args]
+        else:
+            vals = _ev(a, env)
+        return {"all": all, "any": any, "max": max, "min": min}[e.func.id](vals)
+    raise _NoEval(type(e).__name__)
+
+
+def no_premature_return(repo, rep, fi, fw, dw):
+    """The input may be handed back unsmoothed only when BOTH windows are 1 (then smoothing is the identity)."""
+    from ..astutil import path_conditions
+    P0 = fi.params[0]
+    roll = [n for n in ast.walk(fi.node) if isinstance(n, ast.Call) and isinstance(n.func, ast.Attribute) and n.func.attr == "rolling"]
+    n = 0
+    for r in ast.walk(fi.node):
+        if isinstance(r, ast.Return) and isinstance(r.value, ast.Name) and r.value.id == P0 and roll and r.lineno < roll[0].lineno:
+            n += 1
+            pcs = path_conditions(fi.node, r)
+            wrong = None
+            try:
+                for a in (1, 3, 5):
+                    for b in (1, 3, 5):
+                        taken = all(bool(_ev(t, {fw: a, dw: b})) == truth for t, truth in pcs)
+                        if taken and (a, b) != (1, 1):
+                            wrong = (a, b)
+            except _NoEval as ex:
+                raise AnalysisError(f"smooth_spec: early return of the input under a condition that is not a window test ({ex})")
+            if wrong:
+                rep.fail("R-C16-3", fi.file, r.lineno, fi.qualname, f"return {P0}  under  " + " and ".join(("" if tr else "not ") + unparse(t)[:60] for t, tr in pcs),
+                         f"the input is returned unsmoothed for windows ({fw}, {dw}) = {wrong}: smoothing is the identity only when BOTH windows are 1, so the "
+                         "requested running mean along the other dimension is silently skipped")
+            else:
+                rep.ok("R-C16-3", f"{fi.file}:{r.lineno} smooth_spec", f"return {P0}", "only for windows (1, 1)")
+    return n
+
+
 def run(repo, rep, tier):
     rep.rule("R-C16-5", "every parameter of the functions behind this property is read (smoothing): none is accepted and then ignored, and no control parameter (cutoff, limit, tolerance, window, count, switch) is replaced by another value before use (coercion and default filling aside)")
     from .shared import unused_parameters
-    unused_parameters(repo, rep, "R-C16-5", ("wavespectra.core.utils.smooth_spec", "wavespectra.specarray.SpecArray.smooth"), "smoothing")
+    unused_parameters(repo, rep, "R-C16-5", ("wavespectra.core.utils.smooth_spec", "wavespectra.specarray.SpecArray.smooth", "wavespectra.partition.partition.Partition"), "smoothing")
     rep.rule("R-C16-1", "both window sizes are tested for evenness and ValueError is raised before any data operation")
     rep.rule("R-C16-2", "circular padding: last bins relabelled -360 in front, first bins +360 behind, width derived from the "
                         "DIRECTION window, only under the circularity test |max - min + dd - 360| < 0.1 dd")
@@ -235,6 +313,18 @@ def run(repo, rep, tier):
     else:
         rep.fail("R-C16-2", fi.file, fi.node.lineno, fi.qualname, "padding guard", "padding must happen only under the circularity test")
     # ---- R-C16-3 ----
+    no_premature_return(repo, rep, fi, fw, dw)
+    # the working copy may be transposed for speed only if the caller's dimension order is restored: the result takes its order from it
+    trs = [c for c in ast.walk(fi.node) if isinstance(c, ast.Call) and isinstance(c.func, ast.Attribute) and c.func.attr == "transpose"]
+    restored = any(isinstance(c.args[0] if c.args else None, ast.Starred) and unparse(c.args[0].value).replace(" ", "") in (f"{fi.params[0]}.dims", f"{fi.params[0]}[{repo.attrs.SPECNAME!r}].dims")
+                   for c in trs)
+    others = [c for c in trs if not (c.args and isinstance(c.args[0], ast.Starred))]
+    if others and not restored:
+        rep.fail("R-C16-3", fi.file, others[0].lineno, fi.qualname, unparse(others[0])[:100],
+                 "the working copy is transposed and the caller's dimension order is never restored (no transpose(*input.dims) afterwards): the values are "
+                 "right per label but the result's dimensions come back in another order than the input's")
+    else:
+        rep.ok("R-C16-3", f"{fi.file} smooth_spec", f"{len(trs)} transpose call(s)", "the result keeps the input's dimension order")
     roll = [n for n in ast.walk(fi.node) if isinstance(n, ast.Call) and isinstance(n.func, ast.Attribute) and n.func.attr == "rolling"]
     if len(roll) != 1:
         raise AnalysisError("smooth_spec: rolling() not found")
@@ -283,6 +373,25 @@ def run(repo, rep, tier):
         rep.fail("R-C16-4", fi.file, node.lineno, fi.qualname, unparse(node)[:120], msg)
     rep.ok("R-C16-4", f"{fi.file} smooth_spec", f"{oa.checked} order-sensitive operations", "positional ops on the sorted object; labels re-attached after label selection")
     # accessor and partition callers pass the windows through
+    # every package caller of smooth_spec (the partition methods included) hands each window to its own parameter
+    ncallers = 0
+    for f3 in repo.all_funcs():
+        if f3.qualname in (Q, "wavespectra.specarray.SpecArray.smooth"):
+            continue
+        for c3 in ast.walk(f3.node):
+            if isinstance(c3, ast.Call) and call_name(c3).split(".")[-1] == "smooth_spec":
+                ncallers += 1
+                from ..astutil import bound_args as _ba3
+                b3 = _ba3(repo, f3, c3) or {}
+                k3 = {k_: unparse(v_) for k_, v_ in b3.items()}
+                mism = [(p_, k3.get(p_)) for p_ in ("freq_window", "dir_window") if p_ in f3.params and k3.get(p_) != p_]
+                if mism:
+                    rep.fail("R-C16-3", f3.file, c3.lineno, f3.qualname, unparse(c3)[:110],
+                             f"{f3.short} takes {mism[0][0]} from its caller but hands smooth_spec {mism[0][1]!r} for it: the requested window is "
+                             "ignored (the direction window decides whether peaks either side of the 0/360 seam merge)")
+                else:
+                    rep.ok("R-C16-3", f"{f3.file}:{c3.lineno} {f3.short}", unparse(c3)[:80], "windows passed to their own parameters")
+    rep.floor("R-C16-3", "package callers of smooth_spec besides the accessor", ncallers, 4)
     for q, call in (("wavespectra.specarray.SpecArray.smooth", "smooth_spec"),):
         f2 = repo.func(q)
         c = [n for n in ast.walk(f2.node) if isinstance(n, ast.Call) and call_name(n) == call]
